@@ -844,6 +844,22 @@ func init() {
 		}
 		p.Tail = 0
 		p.Sched = SchedCfg{YieldProb: Pick(r, []float64{0, 0.2}), StallMax: 0}
+		if r.Bool(0.35) {
+			// the record is replaced at the very moment one of the instance's Creates is applied,
+			// and the application validates at the moment that Create is answered: the call ends
+			// a term whose OnPromote may not have had its turn yet (wave 18)
+			for k := 0; k < 1+r.Intn(3); k++ {
+				i, kth := r.Intn(n), Pick(r, []int{1, 1, 1, 2, 3})
+				p.Actions = append(p.Actions, Action{Kind: AOutPut, Key: "g1", Value: []byte(`{"id":"intruder","token":"00000000-0000-4000-8000-000000000009","priority":9}`),
+					OnInst: i + 1, OpKind: "create", OpN: kth, Phase: "apply"})
+				p.Actions = append(p.Actions, Action{Kind: AValidateOD, Inst: i, OpKind: "create", OpN: kth, Phase: "return", Delay: Pick(r, []time.Duration{0, r.Dur(0, 2*ms), r.Dur(0, lat), r.Dur(0, 4*lat)})})
+			}
+			// (the OnPromote goroutine - or an earlier demotion's, in the application's Logger -
+			// held up for about a store round trip: its turn in the callback order has not come
+			// when the validation call ends the term)
+			p.Sched.YieldProb = Pick(r, []float64{0.2, 0.5})
+			p.Sched.StallMax = Pick(r, []time.Duration{2 * lat, 4 * lat})
+		}
 		return p
 	}
 }
@@ -2199,6 +2215,36 @@ func init() {
 		p.Tail = 0
 		statusCalls(r, p)
 		p.Sched = SchedCfg{YieldProb: Pick(r, []float64{0, 0.2, 0.5}), StallMax: 0}
+		return p
+	}
+}
+
+func init() {
+	// "c04turn": ValidateTokenOrDemote ends a term whose OnPromote has not had its turn in the
+	// callback order yet. One or two instances; the record is replaced by an outsider at the very
+	// moment the instance's Create is applied; the application validates shortly after that Create
+	// is answered (the promotion), while the goroutine that is to run OnPromote is held up for a
+	// few store round trips. The call may return false only when OnDemote has been invoked.
+	families["c04turn"] = func(r *Rng) *Plan {
+		p := &Plan{Judge: []string{"C04", "C08"}}
+		baseTiming(r, p, []time.Duration{200 * ms, 500 * ms, 1 * sec, 2 * sec})
+		n := 1 + r.Intn(2)
+		p.Insts = mkInsts(r, n, 1)
+		for i := range p.Insts {
+			p.Insts[i].V = Pick(r, []time.Duration{0, 3 * p.H})
+			p.Actions = append(p.Actions, Action{At: time.Duration(i) * r.Dur(p.H, 2*p.H), Kind: AStart, Inst: i})
+		}
+		lat := Pick(r, []time.Duration{p.H / 20, p.H / 10})
+		p.Store = healthyStore(r, lat)
+		for kth := 1; kth <= 1+r.Intn(2); kth++ {
+			p.Actions = append(p.Actions, Action{Kind: AOutPut, Key: "g1", Value: []byte(`{"id":"intruder","token":"00000000-0000-4000-8000-000000000009","priority":9}`),
+				OnInst: 1, OpKind: "create", OpN: kth, Phase: "apply"})
+			p.Actions = append(p.Actions, Action{Kind: AValidateOD, Inst: 0, OpKind: "create", OpN: kth, Phase: "return", Delay: Pick(r, []time.Duration{r.Dur(0, 2*ms), r.Dur(0, lat), r.Dur(0, 4*lat)})})
+			p.Actions = append(p.Actions, Action{Kind: AOutDelete, Key: "g1", OnInst: 1, OpKind: "create", OpN: kth, Phase: "return", Delay: r.Dur(p.H, 3*p.H)})
+		}
+		p.Until = 8*p.H + 2*p.TTL
+		p.Tail = 0
+		p.Sched = SchedCfg{YieldProb: Pick(r, []float64{0.3, 0.6}), StallMax: Pick(r, []time.Duration{2 * lat, 4 * lat, 8 * lat})}
 		return p
 	}
 }
